@@ -95,6 +95,8 @@ pub struct SysState {
     pub planned: AtomicU64,
     pub in_window: AtomicBool,
     pub enters: AtomicU64,
+    /// typed systems: entered (accessor called) but `run` not reached yet
+    pub pending_enter: AtomicBool,
 }
 
 #[derive(Clone, Debug)]
@@ -130,6 +132,9 @@ pub struct Ctx {
     pub log_events: AtomicBool,
     /// async scenarios: number of `dispatch` operations issued so far
     pub async_dispatched: AtomicU64,
+    /// a dispatch call (or the identification run) is in progress: typed systems emit `Enter`
+    /// from `accessor()` only then (the builder calls `accessor()` too)
+    pub dispatching: AtomicBool,
 }
 
 impl Ctx {
@@ -154,6 +159,7 @@ impl Ctx {
             created: Mutex::new(vec![false; nres]),
             log_events: AtomicBool::new(true),
             async_dispatched: AtomicU64::new(0),
+            dispatching: AtomicBool::new(false),
         })
     }
 
@@ -641,6 +647,132 @@ where
     Sel<W>: Pick,
 {
     type D<'c> = (Read<'c, <Sel<R> as Pick>::T>, Write<'c, <Sel<W> as Pick>::T>);
+}
+
+pub trait FamVisitor {
+    fn visit<F: Fam>(self);
+}
+
+/// Select the family member for (read type, write type) and hand it to the visitor.
+pub fn pick_fam<V: FamVisitor>(r: Option<u8>, w: Option<u8>, v: V) {
+    macro_rules! w_arm {
+        ($r:literal) => {
+            match w {
+                Some(0) => v.visit::<FRW<$r, 0>>(),
+                Some(1) => v.visit::<FRW<$r, 1>>(),
+                Some(2) => v.visit::<FRW<$r, 2>>(),
+                Some(3) => v.visit::<FRW<$r, 3>>(),
+                None => v.visit::<FR<$r>>(),
+                _ => unreachable!("write type out of the static family"),
+            }
+        };
+    }
+    match r {
+        Some(0) => w_arm!(0),
+        Some(1) => w_arm!(1),
+        Some(2) => w_arm!(2),
+        Some(3) => w_arm!(3),
+        None => match w {
+            Some(0) => v.visit::<FW<0>>(),
+            Some(1) => v.visit::<FW<1>>(),
+            Some(2) => v.visit::<FW<2>>(),
+            Some(3) => v.visit::<FW<3>>(),
+            None => v.visit::<F0>(),
+            _ => unreachable!("write type out of the static family"),
+        },
+        _ => unreachable!("read type out of the static family"),
+    }
+}
+
+/// A system whose data is a library type (`Read` / `Write` / pair / unit): the library does the
+/// fetch. `Enter` is emitted from the overridden `System::accessor()`, the first thing
+/// `run_now` calls.
+pub struct TypedSys<F> {
+    pub ctx: Arc<Ctx>,
+    pub sid: usize,
+    pub hint: u8,
+    pub _m: PhantomData<fn() -> F>,
+}
+
+impl<'a, F: Fam> System<'a> for TypedSys<F> {
+    type SystemData = F::D<'a>;
+
+    fn run(&mut self, d: F::D<'a>) {
+        let ctx = self.ctx.clone();
+        let sid = self.sid;
+        ctx.states[sid].pending_enter.store(false, Ordering::SeqCst);
+        let _g = ExitGuard { ctx: ctx.clone(), sid };
+        let mut d = d;
+        ctx.emit(Ev::Fetched, sid, 0);
+        ctx.point(sid, PH_IN_WINDOW);
+        ctx.emit(Ev::RunStart, sid, 0);
+        let st = &ctx.states[sid];
+        st.run.fetch_add(1, Ordering::SeqCst);
+        let dir = ctx.take_directive(sid);
+        let kind = dir.as_ref().map(|d| d.kind);
+        if kind == Some(FaultKind::PanicBefore) {
+            panic!("{}", ctx.payload(sid, "before"));
+        }
+        if !ctx.identify() {
+            let v = d.touch(&ctx, sid);
+            st.obs.lock().unwrap().push(v);
+            let old = st.state.load(Ordering::SeqCst);
+            st.state.store(mix(old, v), Ordering::SeqCst);
+            ctx.point(sid, PH_IN_WINDOW);
+            match kind {
+                Some(FaultKind::PanicMid) | Some(FaultKind::PanicAfter) => panic!("{}", ctx.payload(sid, "mid")),
+                Some(FaultKind::Rendezvous) => rendezvous(&ctx, dir.as_ref().unwrap().arg as usize),
+                _ => {}
+            }
+            ctx.point(sid, PH_IN_WINDOW);
+        }
+        drop(d);
+        st.in_window.store(false, Ordering::SeqCst);
+        ctx.emit(Ev::Release, sid, 0);
+        ctx.point(sid, PH_LEAVING);
+    }
+
+    fn running_time(&self) -> RunningTime {
+        hint_of(self.hint)
+    }
+
+    fn accessor<'b>(&'b self) -> AccessorCow<'a, 'b, Self> {
+        let ctx = &self.ctx;
+        if ctx.dispatching.load(Ordering::SeqCst) {
+            let sid = self.sid;
+            ctx.point(sid, PH_AT_ENTER);
+            let st = &ctx.states[sid];
+            st.occ.fetch_add(1, Ordering::SeqCst);
+            st.enters.fetch_add(1, Ordering::SeqCst);
+            ctx.active.fetch_add(1, Ordering::SeqCst);
+            st.in_window.store(true, Ordering::SeqCst);
+            st.pending_enter.store(true, Ordering::SeqCst);
+            ctx.emit(Ev::Enter, sid, 0);
+        }
+        AccessorCow::Owned(<shred::StaticAccessor<F::D<'a>> as Accessor>::try_new().expect("static accessor"))
+    }
+
+    fn setup(&mut self, world: &mut World) {
+        self.ctx.states[self.sid].setup.fetch_add(1, Ordering::SeqCst);
+        <F::D<'a> as SystemData<'a>>::setup(world);
+    }
+
+    fn dispose(self, _world: &mut World) {
+        self.ctx.states[self.sid].dispose.fetch_add(1, Ordering::SeqCst);
+    }
+}
+
+impl Ctx {
+    /// A typed system whose library fetch unwound never reached `run`: close its window.
+    pub fn reap_pending(&self) {
+        for (sid, st) in self.states.iter().enumerate() {
+            if st.pending_enter.swap(false, Ordering::SeqCst) {
+                self.active.fetch_sub(1, Ordering::SeqCst);
+                st.in_window.store(false, Ordering::SeqCst);
+                self.emit(Ev::ExitPanic, sid, 0);
+            }
+        }
+    }
 }
 
 pub struct Ctl<F> {
